@@ -1057,7 +1057,8 @@ def _val_to_numpy(
         if has_nulls and len(val_list) > 1:
             # e.g. integer chunks turn into float only where they hold a null
             common_type = np.result_type(*val_list)
-            val_list = [v.astype(common_type, copy=False) for v in val_list]
+            # copies throughout: numba needs chunks of one type (also same writability)
+            val_list = [np.array(v, dtype=common_type) for v in val_list]
     elif isinstance(val, pa.Array):
         val_list = [val.to_numpy(zero_copy_only=val.null_count == 0)]
     elif hasattr(val, "to_numpy"):
